@@ -128,7 +128,7 @@ def gen_one(rng, profile, builder):
 
 
 def generate(rng, tier):
-    n = {"quick": 240, "escalated": 1200, "thorough": 5000}[tier]
+    n = {"quick": 300, "escalated": 600, "thorough": 4000}[tier]
     cases = []
     for k in range(n):
         profile = SPIRAL_PROFILE if k % 12 == 11 else (GROUP_PROFILE if k % 2 == 0 else PROFILE)
@@ -424,7 +424,31 @@ def nontrivial(case, obs):
     return bool(ran_formula and stored)
 
 
+def kind_ok(ent, e):
+    """Merge.kind_ok: the hypothesis [kinded] of the theorems, evaluated on the generated system"""
+    tag = e[0]
+    if tag == "bin":
+        return kind_ok(ent, e[2]) and kind_ok(ent, e[3])
+    if tag == "not":
+        return kind_ok(ent, e[1])
+    if tag == "where":
+        return all(kind_ok(ent, x) for x in e[1:4])
+    if tag == "agg":
+        return ent == "group" and kind_ok("person", e[3])
+    if tag == "nb":
+        return ent == "group"
+    if tag == "project":
+        return ent == "person" and kind_ok("group", e[2])
+    return True
+
+
+def kinded(sys):
+    return all(kind_ok(v["ent"], e) for v in sys["vars"] for _s, e in v["formulas"])
+
+
 def classify(case, obs):
+    if not kinded(case["sys"]):
+        return "NOT-KINDED (outside the theorems' hypothesis)"
     if obs == "skip":
         return "skipped-inexact"
     if isinstance(obs, Err):
